@@ -634,12 +634,42 @@ class _VarDict(object):
     def __contains__(self, name):
         return True
 
+    # iteration over a model dictionary: the hydraulic model holds one entry per junction in its junction-indexed dictionaries (isolated junctions
+    # included: demand_var / head_var create them for every junction) and one per link in `flow`; other fields iterate over what was asked for so far
+    def _universe(self):
+        wn = self.wn
+        if wn is not None and self.field in ("demand", "head", "expected_demand", "elevation", "pmin", "pnom"):
+            return [k for k, n in wn.nodes.items() if isinstance(n, MJunction)]
+        if wn is not None and self.field == "flow":
+            return list(wn.links)
+        if wn is not None and self.field == "source_head":
+            return [k for k, n in wn.nodes.items() if not isinstance(n, MJunction)]
+        return list(self.names)
+
+    def keys(self):
+        return list(self._universe())
+
+    def __iter__(self):
+        return iter(self._universe())
+
+    def __len__(self):
+        return len(self._universe())
+
+    def items(self):
+        return [(k, self[k]) for k in self._universe()]
+
+    def values(self):
+        return [self[k] for k in self._universe()]
+
+    wn = None
+
 
 class MModel(object):
     _sa_mock = True
 
-    def __init__(self):
+    def __init__(self, wn=None):
         self._fields = {}
+        self._wn = wn
 
     def __getattr__(self, a):
         if a.startswith("_"):
@@ -647,6 +677,7 @@ class MModel(object):
         f = self.__dict__["_fields"]
         if a not in f:
             f[a] = _VarDict(a, 1000.0 * (len(f) + 1))
+            f[a].wn = self.__dict__.get("_wn")
         return f[a]
 
 
@@ -1354,7 +1385,7 @@ def run(repo, chk):
                     nd._head, nd._demand, nd._pressure, nd._leak_demand = 777.0, 777.0, 777.0, 777.0     # stale values of an earlier step
                 for k, l in wn.links.items():
                     l._flow = 777.0
-                mm = MModel()
+                mm = MModel(wn)
                 ctx = "demand model %s, leak_status %s" % (mode, leaky)
                 try:
                     fn_s(wn, mm)
